@@ -1,8 +1,8 @@
 (* C04 -- the second HCM pass of the FKM-nonlinear detector counts exactly the steady-state hystereses.
    Model: PL.HCM.Model (generic), PL.HCM.Load (load-only instance), specification PL.HCM.Periodic; tied to the code by the
    correspondence check of harness/props/c04.py.  Only statements, `exact`, Print Assumptions. *)
-From Coq Require Import ZArith List Bool.
-From PL Require Import Rainflow.Model HCM.Model HCM.Load HCM.Periodic HCM.Inv HCM.LoadThm.
+From Coq Require Import Reals ZArith List Bool.
+From PL Require Import Rainflow.Model HCM.Model HCM.Load HCM.Periodic HCM.Inv HCM.LoadThm HCM.Tol.
 Import ListNotations.
 Open Scope Z_scope.
 
@@ -56,6 +56,25 @@ Theorem pass_stationary_bounded s :
   two_distinct s = true -> in_class s = true -> stationary_ok s = true.
 Proof. exact (LoadThm.pass_stationary_bounded s). Qed.
 
+(* float loads: the code's tolerant comparisons (`>` / `<` with an absolute tolerance tol) of quantities that lie within ea, eb of a
+   grid c * level decide like the exact comparison of the integer levels, whenever ea + eb < tol and tol + ea + eb < c; the compared
+   quantities are loads, |loads| and load extents, whose grid errors are bounded by level_abs_extent.  This is the (only) bridge
+   between the integer load model and the near-tie float inputs of the correspondence check (c04.py stage D4). *)
+Theorem tolerant_compare_is_level_compare (c tol ea eb a b : R) (za zb : Z) :
+  (ea + eb < tol)%R -> (tol + ea + eb < c)%R ->
+  (Rabs (a - c * IZR za) <= ea)%R -> (Rabs (b - c * IZR zb) <= eb)%R ->
+  ((a > b + tol)%R <-> za > zb) /\ ((a < b - tol)%R <-> za < zb).
+Proof. exact (fun H1 H2 Ha Hb => conj (Tol.tolerant_gt_is_level_gt c tol ea eb H1 H2 a b za zb Ha Hb)
+                                       (Tol.tolerant_lt_is_level_lt c tol ea eb a b za zb H1 H2 Ha Hb)). Qed.
+Theorem level_abs_extent (c e1 e2 x y : R) (zx zy : Z) :
+  (0 < c)%R -> (Rabs (x - c * IZR zx) <= e1)%R -> (Rabs (y - c * IZR zy) <= e2)%R ->
+  (Rabs (Rabs x - c * IZR (Z.abs zx)) <= e1)%R /\ (Rabs (Rabs (x - y) - c * IZR (Z.abs (zx - zy))) <= e1 + e2)%R.
+Proof. exact (fun Hc Hx Hy => conj (Tol.level_abs c e1 x zx Hc Hx) (Tol.level_extent c e1 e2 x y zx zy Hc Hx Hy)). Qed.
+Theorem tolerant_compare_hyp_sat :
+  let tol := (/ 1000000000000)%R in let e := (45 / 100000000000000)%R in let c := (/ 1000)%R in
+  (e + e < tol)%R /\ (tol + e + e < c)%R.
+Proof. exact Tol.tolerant_hyp_sat. Qed.
+
 Print Assumptions hcm_never_stuck.
 Print Assumptions memory3_symmetric.
 Print Assumptions pass2_all_closed.
@@ -65,3 +84,6 @@ Print Assumptions pass2_witnesses.
 Print Assumptions pass2_is_steady_state_restricted_bounded.
 Print Assumptions refine_insensitive_hcm_bounded.
 Print Assumptions pass_stationary_bounded.
+Print Assumptions tolerant_compare_is_level_compare.
+Print Assumptions level_abs_extent.
+Print Assumptions tolerant_compare_hyp_sat.
